@@ -37,6 +37,9 @@ CHECKS = {
  "C08": dict(cat="proof", tech="contract-based deductive: strapdown_ins_propagate / SE23 exp_mixed / calculate_N traced from the real code; the flow ODE in dt, initial value, semigroup law and unit norm decided as ring identities (ALG) + lemma L-ODE",
              text="d/d(dt) of the returned state equals the IMU kinematics evaluated at the returned state for every initial state, specific force, gravity, dt > 0 and rate (closed-form cell), x(0) = x0 exactly, zero-rate motion exact for every dt, two steps equal one step of the summed duration, |q| stays 1: hence the propagation is the exact flow, with no discretisation error.",
              note="A-GRAPH; real arithmetic; CasADi symbolic differentiation; lemma L-ODE; small-angle cell deferred to C06", ref="5/C08"),
+ "C14": dict(cat="proof", tech="contract-based deductive: set-point generators traced from the real code with SO3Quat.from_Matrix/from_Euler replaced by their contracts at the call sites; orthonormality, determinant, alignment, thrust magnitude, flatness rates and Euler's equation decided as ring identities with norm (root) atoms per branch (ALG) + SMT for signs",
+             text="Nominal branches: the matrix handed to from_Matrix is a proper rotation whose z axis is the normalised demanded force and whose y axis is perpendicular to the heading, nT = |force|; mr_ref_traj rates equal the rotation rate of the thrust axis along the trajectory and the moment satisfies Euler's equation; f_ref agrees with mr_ref_traj. Degenerate branches are explored exhaustively: the documented fallbacks are NOT proper rotations (known findings, listed).",
+             note="A-GRAPH; real arithmetic; callee contracts from C07; CasADi AD; se23 outer loop with identity gain shaping (feed-forward free)", ref="5/C14"),
 }
 NA = {
  "C17": "closed-loop convergence of the hybrid cascade from an envelope of initial conditions is a whole-trajectory property; no pre/postcondition on a function of /repo expresses it short of a Lyapunov certificate (its per-call ingredients are C13, C15, C16)",
